@@ -182,6 +182,9 @@ Definition opt_ok {A} (f : A -> bool) (o : option A) : bool := match o with Some
 (* a ZADD member may not look like an option word at the position where options are read: the FIRST score token
    must not upper-case to an option word (a score numeral never does) *)
 
+(* the ZADD executor reads option words until the first token that is not one; that token is the first score *)
+Definition is_za_kw (s : bytes) : bool := kw s "NX" || kw s "XX" || kw s "GT" || kw s "LT" || kw s "CH" || kw s "INCR".
+
 Definition valid (r : req) : bool :=
   match r with
   | QDel ks | QExists ks => ne ks
@@ -196,7 +199,8 @@ Definition valid (r : req) : bool :=
   | QLIndex _ i => inttok_ok i
   | QLPop _ n | QRPop _ n => opt_ok inttok_ok n
   | QLRange _ a b => inttok_ok a && inttok_ok b
-  | QZAdd _ ws first more => forallb za_word_ok ws && fltok_ok (fst first) && forallb (fun p => fltok_ok (fst p)) more
+  | QZAdd _ ws first more => forallb za_word_ok ws && fltok_ok (fst first) && negb (is_za_kw (ft_txt (fst first)))
+                             && forallb (fun p => fltok_ok (fst p)) more
   | QZIncrBy _ inc _ => fltok_ok inc
   | QZRangeIdx _ a b ws => inttok_ok a && inttok_ok b && forallb zr_word_ok ws && negb (has_byscore ws)
   | QZRangeScore _ a b ws => rstok_ok a && rstok_ok b && forallb zr_word_ok ws && has_byscore ws
